@@ -79,7 +79,15 @@ func (e *Eng) step(fr *Frame, st *State, instr ssa.Instruction) {
 		fr.vals[in] = e.changeType(fr, in)
 		e.setTaint(fr, in, in.X)
 	case *ssa.ChangeInterface:
-		fr.vals[in] = e.val(fr, in.X)
+		v := e.val(fr, in.X)
+		if iv, ok := v.(*IfaceV); ok && iv.StaticI == nil {
+			if it, ok := under(in.X.Type()).(*types.Interface); ok && it.NumMethods() > 0 {
+				cp := *iv
+				cp.StaticI = in.X.Type()
+				v = &cp
+			}
+		}
+		fr.vals[in] = v
 		e.setTaint(fr, in, in.X)
 	case *ssa.Convert:
 		fr.vals[in] = e.convert(fr, st, in)
